@@ -135,6 +135,13 @@ func vhCommandTable() []vhCmd {
 		{[]string{"DELHOOK", "ch1"}, vhWrite, nil},
 		{[]string{"PDELHOOK", "*"}, vhWrite, nil},
 		{[]string{"TIMEOUT", "1", "SET", "fleet", "truck5", "POINT", "1", "2"}, vhWrite, nil},
+		{[]string{"TIMEOUT", "10", "EVAL", "return tile38.call('set','fleet','truck9','POINT',1,2)", "0"}, vhWrite,
+			[][]string{{"set", "fleet", "truck9", "POINT", "1", "2"}}},
+		{[]string{"TIMEOUT", "10", "EVALNA", "return tile38.call('set','fleet','truck9','POINT',1,2)", "0"}, vhWrite,
+			[][]string{{"set", "fleet", "truck9", "POINT", "1", "2"}}},
+		{[]string{"TIMEOUT", "10", "EVALRO", "return tile38.call('del','fleet','truck1')", "0"}, vhRead, nil},
+		{[]string{"TIMEOUT", "10", "GET", "fleet", "truck1"}, vhRead, nil},
+		{[]string{"TIMEOUT", "10", "DEL", "fleet", "truck1"}, vhWrite, nil},
 		{[]string{"FSET", "fleet", "truck1", "speed", "55", "RETURN", "WITHFIELDS"}, vhWrite, nil},
 		{[]string{"SET", "fleet", "truck6", "FIELD", "speed", "3", "RETURN", "OBJECT", "POINT", "1", "2"}, vhWrite, nil},
 		{[]string{"DEL", "empties", "e1"}, vhWrite, nil},
